@@ -10,6 +10,7 @@ CONSTANTS
     BugDrainWrong = FALSE
     BugLowWaterStrict = FALSE
     BugNoRereg = TRUE
+    BugCloseLeaves = FALSE
 SPECIFICATION Spec
 INVARIANTS RegSync
 CHECK_DEADLOCK FALSE
